@@ -149,8 +149,11 @@ def run_workers(pid, tier, seed, total, nshards):
         out = C.RUN / f"impl_{pid}_{k}.jsonl"
         env = dict(os.environ, PYTHONPATH=f"{C.REPO}/src:{C.VERIF}/harness", PYTHONHASHSEED=str((seed * 31 + k * 7 + 1) % 4294967295),
                    PYTHONDONTWRITEBYTECODE="1", Y0_VERIF="1")
-        p = subprocess.Popen([C.PY, "-u", str(C.VERIF / "harness" / "vcheck.py"), "--worker", pid, tier, str(seed), str(k),
-                              str(nshards), str(per), str(out)], env=env, stdout=subprocess.PIPE, stderr=subprocess.PIPE, text=True)
+        cmd = [C.PY, "-u"]
+        if os.environ.get("VERIF_COVERAGE"):   # development aid (tools/covreport.sh): which lines of y0 do the generated cases reach?
+            cmd = [C.PY, "-u", "-m", "coverage", "run", "-p", f"--data-file={os.environ['VERIF_COVERAGE']}/.coverage", f"--source={C.REPO}/src/y0"]
+        p = subprocess.Popen(cmd + [str(C.VERIF / "harness" / "vcheck.py"), "--worker", pid, tier, str(seed), str(k),
+                                    str(nshards), str(per), str(out)], env=env, stdout=subprocess.PIPE, stderr=subprocess.PIPE, text=True)
         procs.append((k, p, out))
     rows, worker_errors = [], []
     for k, p, out in procs:
